@@ -323,6 +323,45 @@ def correspond_functions(ctx, impl, furls, hints):
 
 # ------------------------------------------------------------------------------ direct oracle
 
+B32_LOWER = "abcdefghijklmnopqrstuvwxyz234567"           # rfc4648 base32, lower case (written out here, not read from the source)
+# characters that are NOT base32, to be put at every position of the tub id field
+FOREIGN = ["\n", "\r", "\x00", "\t", "\x0b", "\x0c", "\x1c", "\x1d", "\x1e", "\x1f", "\x85", "\u2028", "\u2029", " ", "\xa0",
+           "0", "1", "8", "9", "\uff12", "\uff41", "\u0663", "=", "-", "_", ".", ":", ",", "%", "!", "~", "\x7f", "\u00e9", "\u0131",
+           "\u017f", "\u0130", "\U0001d7d8", "\r\n", "\n\n"]
+
+
+def malformed_tubid_furls(ctx, rng):
+    """every foreign character at EVERY position of the tub id field, for fields shorter than, equal to and longer than
+    the 32-character window (so also at the last position of the window and of shorter fields); '/' and '@' too"""
+    out = []
+    lengths = ctx.n([1, 2, 5, 31, 32, 33], [1, 2, 3, 5, 8, 16, 30, 31, 32, 33, 34, 40])
+    for L in lengths:
+        base = "".join(rng.choice(B32_LOWER) for _ in range(L))
+        for pos in range(L):
+            for c in FOREIGN + ["/", "@"]:
+                out.append("pb://" + base[:pos] + c + base[pos + 1:] + "@h:1/n")          # replaced
+            if pos in (0, L - 1, min(31, L - 1), min(32, L - 1)):
+                for c in FOREIGN:
+                    out.append("pb://" + base[:pos + 1] + c + base[pos + 1:] + "@h:1/n")  # inserted after pos
+    return out
+
+
+def wellformed_problem(t, h, n):
+    """the well-formedness clause of the decode theorem (FurlProofs.decode_wf), judged independently of the source"""
+    if not isinstance(t, str) or not (1 <= len(t) <= 32):
+        return "the tub id %r does not have 1..32 characters" % (t,)
+    for i, c in enumerate(t):
+        lo = c.lower()
+        if not lo or any(x not in B32_LOWER for x in lo):
+            return "the tub id %r is not made of base32 characters: %r at position %d" % (t, c, i)
+    for x in h:
+        if not isinstance(x, str) or x == "" or "," in x or "/" in x:
+            return "hint %r is empty or contains ',' or '/'" % (x,)
+    if not isinstance(n, str) or n == "" or "\n" in n:
+        return "the name %r is empty or contains a newline" % (n,)
+    return None
+
+
 def oracle_furl(ctx, impl, s):
     r = impl.decode(s)
     if r[0] == "exc":
@@ -336,6 +375,10 @@ def oracle_furl(ctx, impl, s):
     ctx.hist("decode_furl", "ok")
     ctx.case(["furl", repr(s)], nontrivial=True)
     oracle_spelling(ctx, s, (t, h, n))
+    bad = wellformed_problem(t, h, n)
+    if bad:
+        ctx.fail("oracle/decode-not-wellformed", "decode_furl(%r) did not raise BadFURLError but returned (%r, %r, %r): %s"
+                 % (s, t, h, n, bad), replay=dict(furl=s, decoded=[t, h, n], problem=bad))
     try:
         again = impl.encode(t, h, n)
         r2 = impl.decode(again)
@@ -888,6 +931,7 @@ def run(ctx):
     hint_cases = [(h, HANDLER_SETS[i % len(HANDLER_SETS)] if i % 3 else HANDLER_SETS[1]) for i, h in enumerate(hints)]
     # fixed witnesses: hosts that look like a dotted quad but are not an IPv4 address, through every handler set with tor
     for h in ("tor:256.1.1.1:80", "tor:010.0.0.1:80", "tor:\u0661.\u0662.\u0663.\u0664:80", "tor:999.999.999.999:1", "1.1.256.127:2706",
+              "i2p:a:123456", "tor:a:123456", "tcp:a:123456", "a:123456", "i2p:a:99999", "i2p:a:", "i2p:a:0000000",
               "tor:1.2.3.4:5", "tor:127.0.0.1:5", "tor:[::1]:5", "tor:1.2.3:4", "tor:1.2.3.4.5:6", "tor:0.0.0.0:0"):
         for hs in (HANDLER_SETS[1], HANDLER_SETS[2], HANDLER_SETS[3]):
             hint_cases.append((h, hs))
@@ -900,6 +944,12 @@ def run(ctx):
     furls += ["pb://a@/n", "pb://a@,/n", "pb://a@h,/n", "pb://a@h/", "pb://@h/n", "pb://a@h/n\n", "pb://a@h/n\n\n", "pb://a/b@c/d",
               "xxpb://a@h/n", "pb://pb://a@h/n", "pb://\u212a@h/n", "pb://\u0130@h/n", "pb://A2@h/n", "pb://a1@h/n", "pb://a@h/n/m",
               "pb://" + "a" * 40 + "@h/n", "pb://" + "a" * 32 + "!!@h/n", "pb://a@h@i/n", "pb://a@h/n@m", "", "pb://", "pb://a@h"]
+
+    # fixed witnesses of the "foreign character in the tub id" family first, then the systematic stream
+    furls += ["pb://" + "a" * 31 + "\n@host:1/name", "pb://abc\n@h:1/n", "pb://" + "a" * 32 + "\n@h:1/n", "pb://a\r@h/n", "pb://\n@h/n",
+              "pb://" + "a" * 31 + "\x85@h/n", "pb://" + "a" * 31 + " @h/n", "pb://" + "a" * 31 + "\uff12@h/n", "pb://ab\x00@h/n"]
+    tub_stream = malformed_tubid_furls(ctx, rng)
+    ctx.extra["malformed_tubid_furls"] = len(tub_stream)
 
     # well-formed triples over the full alphabet of each field; their encodings also go through every FURL check below
     triples = []
@@ -918,6 +968,14 @@ def run(ctx):
     furls += [f for f in enc[:ctx.n(400, 20000)] if not (f in seen_f or seen_f.add(f))]
 
     # 2. direct oracle on the real code
+    n_acc = 0
+    for k, f in enumerate(tub_stream):
+        d = oracle_furl(ctx, impl, f)
+        n_acc += d is not None
+        if k % ctx.n(12, 3) == 0:
+            furls.append(f)                          # a share of the stream also goes through the model correspondence
+    ctx.hist("malformed tub id stream", "accepted", n_acc)
+    ctx.hist("malformed tub id stream", "rejected", len(tub_stream) - n_acc)
     decoded = [oracle_furl(ctx, impl, s) for s in furls]
     for s in furls[:60]:
         try:
